@@ -60,9 +60,11 @@ TOLERANCES = {
     'grad_fd': '|<grad f(x),d> - D| <= 1e-7*(|g|+||grad||*||d||) + 16*err, '
                'D / err from the Romberg table of 7 central differences '
                '(h0 = min(radius/4, (1+|x|)/8)/|d|_inf, err = last diagonal '
-               'difference + 4*eps*max|f|/h); cases with err > 1e-4*scale '
-               'are counted as fd_unreliable, not judged; float32 spaces use '
-               'eps32 and 1e-3',
+               'difference + 4*eps*S/h, S = max|f| and the magnitude of the '
+               'terms the value is assembled from); cases with err > '
+               '1e-4*(|g|+||grad||*||d||) and err > 1e-6*S/(1+|x|) are '
+               'counted as fd_unreliable, not judged; float32 spaces use '
+               'eps32, 1e-3, 3e-2 and 1e-2',
     'derivative': '|f.derivative(x)(d) - <grad f(x),d>| <= 64*eps*n*(|g| + '
                   'sum w|grad||d|)',
     'value': '|f(x)-ref| <= 512*eps*n*(1+|ref|+sum w(|x|+x^2)) (+ the '
@@ -529,9 +531,17 @@ def _check_node(B, pts, top, fd, ctx, probe=True):
         e, _ = X(xf + t * df)
         return value_at(e)
 
-    best, err, q, order_ok = R.fd_estimate(phi, h0, eps)
-    reliable = best is not None and err <= (1e-4 if not f32 else 3e-2) * (
-        G + abs(best) + 1e-300)
+    try:
+        fscale = _parts_scale(B, xe, xf)
+    except Exception:  # noqa
+        fscale = 0.0
+    if not np.isfinite(fscale):
+        fscale = 0.0
+    best, err, q, order_ok = R.fd_estimate(phi, h0, eps, fscale=fscale)
+    xs_ = 1.0 + float(np.max(np.abs(xf)))
+    reliable = best is not None and (
+        err <= (1e-4 if not f32 else 3e-2) * (G + abs(best) + 1e-300) or
+        err <= (1e-6 if not f32 else 1e-2) * fscale / xs_)
     judged = False
     if not reliable:
         note('fd_unreliable')
